@@ -156,7 +156,13 @@ def gen_program(rng, profile):
             out = _w(rng, [('value', 7), ('raise', 3)])
         invs.append({'dur': _w(rng, durs), 'out': out})
     faults = []
-    if faulty and rng.random() < 0.5:
+    if faulty and base == 'c14':
+        for t in threads:
+            t['arrive'] = _w(rng, [(0.0, 4), (Q, 2), (1.0, 2), (2.0, 2)])
+        for _ in range(_w(rng, [(1, 4), (2, 4), (3, 2)])):
+            faults.append({'kind': 'evict', 'on': 'exit', 'inv': _w(rng, [(0, 5), (1, 3), (2, 2)]),
+                           'delta': rng.randrange(1, 60), 'key': rng.randrange(nkeys)})
+    elif faulty and rng.random() < 0.5:
         for _ in range(_w(rng, [(1, 6), (2, 3), (3, 1)])):
             kind = 'stop'
             if base in ('c05', 'c06') and rng.random() < 0.3:
